@@ -186,6 +186,8 @@ def run_case(case, rng):
             def after(args, kwargs, out, exc):
                 if exc is None:
                     tables.append(np.array(out.state_controller_value.numpy(), copy=True))
+            from mon import defaults as Dflt
+            Dflt.in_force(case, "FSCBoundedPolicyIteration", bpi_mod.FSCBoundedPolicyIteration(controller_state_count=nn), passed={})
             learner = bpi_mod.FSCBoundedPolicyIteration(controller_state_count=nn, iterations=iters, seed=seed)
             if rng.random() < 0.25:
                 # the same learner object is first trained on another POMDP (other sizes); nothing may leak
@@ -208,6 +210,8 @@ def run_case(case, rng):
         else:
             iters = rng.randint(1, 25)
             lr = rng.choice([0.1, 0.1, 0.5, 1.0, 2.0])       # large steps make the trajectory non-monotone
+            from mon import defaults as Dflt
+            Dflt.in_force(case, "FSCGradientAscent", ga_mod.FSCGradientAscent(controller_state_count=nn), passed={})
             learner = ga_mod.FSCGradientAscent(controller_state_count=nn, iterations=iters, seed=seed, learning_rate=lr)
             if rng.random() < 0.25:
                 other = Bd.build_pomdp(GP.random_pomdp(rng), explicit=False)
